@@ -223,6 +223,21 @@ def convert_first_of_two(doc, exts, configs, extra_resets=0):
         return ('exc', type(e).__name__)
 
 
+def convert_second_of_two(doc, exts, configs, extra_resets=0):
+    """as `convert_first_of_two`, but the conversion is run on the object built SECOND (an extension instance that hands its options on
+    when it is loaded must still have them for the second object)"""
+    import markdown
+    try:
+        first = markdown.Markdown(extensions=exts, extension_configs=copy.deepcopy(configs))
+        second = markdown.Markdown(extensions=exts, extension_configs=copy.deepcopy(configs))
+        for _ in range(extra_resets): second.reset()
+        return ('ok', second.convert(doc)) if second is not first else ('exc', 'same object')
+    except RecursionError:
+        return ('exc', 'RecursionError')
+    except Exception as e:
+        return ('exc', type(e).__name__)
+
+
 def form_names(name, mod, clsname):
     return {'short': name, 'dotted': 'markdown.extensions.' + name, 'class': '%s:%s' % (mod, clsname)}
 
@@ -251,6 +266,16 @@ def run_forms(B, name, opts, doc, others=()):
             res['instance_shared_by_two'] = res['short'] if res['instance_shared_by_two'] == ref2 else ('differs', 'shared instance: %s  -- by name after two resets: %s' % (res['instance_shared_by_two'][1][:600], ref2[1][:600]))
     except Exception as e:
         res['instance_shared_by_two'] = ('exc', type(e).__name__)
+    # the same with the NEWER object converting
+    try:
+        inst = cls(**copy.deepcopy(opts))
+        res['instance_second_of_two'] = convert_second_of_two(doc, [inst] + list(others), {})
+        if name == 'footnotes' and inst.getConfig('UNIQUE_IDS'):
+            short = form_names(name, mod, clsname)['short']
+            ref2 = convert_second_of_two(doc, [short] + list(others), {short: opts} if opts else {}, extra_resets=1)
+            res['instance_second_of_two'] = res['short'] if res['instance_second_of_two'] == ref2 else ('differs', 'shared instance, second object: %s  -- by name after two resets: %s' % (res['instance_second_of_two'][1][:600], ref2[1][:600]))
+    except Exception as e:
+        res['instance_second_of_two'] = ('exc', type(e).__name__)
     return res
 
 
